@@ -45,6 +45,7 @@ for f in $REBUILT; do
   so=/repo/${f%.c}.cpython-312-x86_64-linux-gnu.so; cp /tmp/seed_detect_$(basename $so).orig $so
   rm -f /tmp/seed_detect_$(basename $f).orig /tmp/seed_detect_$(basename $so).orig
 done
+find /repo/TidalPy -name "*.orig" -newer $D/patch.diff -delete 2>/dev/null
 echo "$OUT" > $D/detect.json
 cat $D/detect.json
 rm -rf /tmp/seed_detect_out
